@@ -88,6 +88,27 @@ def run(ctx):
                     tried = list(names) if given else sorted(names, key=lambda x: pos[lang_of[x]])
                     cases.append({"s": rng.choice(["01/02/2015", "03-04-2011", "05.06.2019 10:30", "12/31/2012", "31/12/2012", "2012/31/12", "12/31/2012 10:30"]), "langs": names, "given": given, "order": tried, "via": via,
                                   "defaults": [rng.choice(order)], "region": None, "settings": {"RELATIVE_BASE": BASE}, "lang0": L0})
+        # the fallback itself: the selected languages do not know the word, two DEFAULT_LANGUAGES both do (a month name
+        # that several languages share: 'mars', 'april', 'sept' ...), in both list orders, with and without use_given_order:
+        # the first default language IN THE ORDER IN FORCE that parses the string decides (its locale is reported)
+        byword = {}
+        for L in order:
+            for mi, wd_ in enumerate(W["langs"][L]["months"]):
+                if wd_:
+                    byword.setdefault(wd_.lower(), []).append((L, mi))
+        shared = [(wd_, ls) for wd_, ls in sorted(byword.items()) if len({l for l, _ in ls}) >= 2]
+        for wd_, ls in (shared if not ctx.quick() else rng.sample(shared, min(len(shared), 60))):
+            knows = sorted({l for l, _ in ls})
+            a, b = rng.sample(knows, 2)
+            strangers = [x for x in order if x not in knows and wd_ not in [m.lower() for m in W["langs"][x]["months"] if m]]
+            sel = rng.sample(strangers, rng.randint(1, 2))
+            for dfl in ([a, b], [b, a]):
+                for given in (True, False):
+                    cases.append({"s": "%d %s %d" % (rng.randint(13, 28), wd_, rng.choice([2015, 1999])), "langs": list(sel), "given": given,
+                                  "order": list(sel) if given else sorted(sel, key=lambda x: pos[x]), "defaults": list(dfl), "region": None, "via": "languages",
+                                  "settings": {"RELATIVE_BASE": BASE}, "lang0": a})
+    for c in cases:       # the order in which the fallback languages are to be tried
+        c["deforder"] = list(c["defaults"]) if c["given"] else sorted(c["defaults"], key=lambda x: pos[x])
     results = core.run_cases(ctx, "harness.lib", "call_c13", cases, chunk=20)
     # ---- conventions of regional locales, with other locales of the same language loaded BEFORE in the same (fresh)
     # process: a regional locale first, then the bare language, then the locale under test
@@ -157,7 +178,7 @@ def run(ctx):
     for j, (c, r) in enumerate(zip(conv, conv_res)):
         records.append({"kind": "conv", "tid": 10 ** 6 + j, "f": c["f"], "sep": c["sep"], "locorder": c["locorder"], "out": r["out"], "exc": r["exc"]})
     for i, (c, r) in enumerate(zip(cases, results)):
-        records.append({"kind": "main", "tid": i, "order": c["order"], "defaults": c["defaults"], "singles": r["singles"], "multi": r["multi"], "multidef": r["multidef"],
+        records.append({"kind": "main", "tid": i, "order": c["order"], "defaults": c["defaults"], "singles": r["singles"], "multi": r["multi"], "multidef": r["multidef"], "defsingles": r.get("defsingles", []), "held": bool(r.get("held", True)),
                         "auto": r["auto"], "reparse": r["reparse"], "region": r["region"], "asLocale": r["asLocale"], "exc": r["exc"], "tries": r["tries"], "bound": bool(r["probe_bound"])})
     tuples, gen = core.validate_traces(ctx, "T_C13", "SPECIFICATION TSpec\nPOSTCONDITION Consumed\nCHECK_DEADLOCK FALSE\n", records)
     for t in tuples["REJECT"]:
